@@ -118,6 +118,14 @@ class MaskedV:
         self.arr, self.mask = arr, mask      # ARef (values), ARef (bool)
 
 
+class OpaqueV:
+    """a value of an external library that is only passed around, configured and displayed (a DataFrame's Styler, a figure): every attribute and every
+    call on it yields another opaque value; nothing can be read out of it"""
+
+    def __init__(self, name="opaque"):
+        self.name = name
+
+
 class ClsV:
     """a class object (only its name matters: isinstance tests and constructor dispatch)"""
 
@@ -454,7 +462,23 @@ class Exec:
         m = getattr(self.k, "fstring_model", None) if self.k is not None else None
         if m is not None:
             return m(self, st, e)          # a contract may give meaning to the few f-strings whose value matters (a file name)
-        return StrV("<fstring>")
+        # an f-string made of literal text and concrete strings only (a dictionary key built from an option name) has its concrete value
+        parts = []
+        for v in e.values:
+            if isinstance(v, ast.Constant) and isinstance(v.value, str):
+                parts.append(v.value)
+            elif isinstance(v, ast.FormattedValue) and v.format_spec is None and v.conversion == -1:
+                try:
+                    x = self.ev(v.value, st.fork())
+                except Undecided:
+                    return StrV("<fstring>")
+                if type(x) is StrV and not x.s.startswith("<"):
+                    parts.append(x.s)
+                else:
+                    return StrV("<fstring>")
+            else:
+                return StrV("<fstring>")
+        return StrV("".join(parts))
 
     def ev_Attribute(self, e, st):
         v = self.ev(e.value, st)
@@ -462,6 +486,8 @@ class Exec:
 
     def getattr(self, st, v, attr, node=None):
         from . import npmodel
+        if isinstance(v, OpaqueV):
+            return OpaqueV(f"{v.name}.{attr}")
         if isinstance(v, (ModV, FuncV)):
             if attr in v.attrs:
                 return v.attrs[attr]
@@ -1025,6 +1051,8 @@ class Exec:
         return self.call(st, f, args, kwargs, e)
 
     def call(self, st, f, args, kwargs, node):
+        if isinstance(f, OpaqueV):
+            return OpaqueV(f.name + "()")
         if isinstance(f, FuncV):
             return f.fn(self, st, args, kwargs, node)
         if isinstance(f, ClsV) and getattr(f, "ctor", None) is not None:
@@ -1600,6 +1628,11 @@ class Exec:
                 if item.optional_vars is not None:
                     st.env[item.optional_vars.id] = v
                 ok = True
+            if not ok and isinstance(ce, ast.Call) and item.optional_vars is None:
+                try:
+                    ok = isinstance(self.ev(ce, st.fork()), OpaqueV)      # a context manager of an opaque library object (display options): sequencing only
+                except Undecided:
+                    ok = False
             if not ok:
                 raise Undecided(f"with-statement at line {n.lineno}")
         return self.run(n.body, st)
